@@ -71,9 +71,14 @@ def gen_text(rnd, lo=1, hi=10, special_p=0.35, role="key"):
     return s
 
 
+# ordinary words a report may well use as a key - and that helpers of a formatter may use as parameter names
+WORD_KEYS = ["timestamp", "tags", "fields", "self", "time", "resolution", "record", "fmt", "key", "value", "data", "measurement",
+             "format", "kwargs", "style", "cls", "sep", "end", "file", "default", "defaults", "datefmt", "validate"]
+
+
 def gen_key(rnd, taken):
     while True:
-        k = gen_text(rnd, 1, 8, rnd.choice([0.0, 0.2, 0.5]), "key")
+        k = rnd.choice(WORD_KEYS) if rnd.random() < 0.12 else gen_text(rnd, 1, 8, rnd.choice([0.0, 0.2, 0.5]), "key")
         if k not in RECORD_ATTRS and k not in taken:
             taken.add(k)
             return k
